@@ -60,7 +60,8 @@ pub fn scan(text: &str) -> Scan {
                 let pe = p.end;
                 p.fields.last_mut().filter(|f| f.end == off && pe == off)
             }) {
-                Some(f) if !stripped.is_empty() => {
+                // a whitespace-only continuation line is accepted by the strict reader; it carries no value text
+                Some(f) => {
                     f.raw_lines.push(stripped.to_string());
                     f.indents.push(indent.to_string());
                     f.end = end;
